@@ -7,7 +7,8 @@ Oracle commands for the model of wazevo's SSA passes `Wz.Model.SsaPass` (C01, ti
                                        (group ids only in the last one)
   c01ssa run <fuel> <args> <function>      `run` on the function as given
   c01ssa runopt <fuel> <args> <function>   `run` on `runPasses` of it
-  c01ssa wf <function>                 `wellFormed`: 1 / 0
+  c01ssa wf <function>                 `wellFormed`: 1 / 0      (wfwhy: which part fails, debugging)
+  c01ssa wfstages <function>           `WF` with the certificate of the input for the input / after phi / after nop
   c01ssa rpo <function>                reverse post-order after dead-block elimination (debugging)
   c01ssa phipanic <function>           1 if `passRedundantPhiEliminationOpt` would panic on the first round
 
@@ -211,6 +212,28 @@ def step (st : St) (args : List String) : St × String :=
     match parseFn toks, parseNat fuel, parseArgs as with
     | some f, some fuel, some as => (st, showOutcome (run world (runPasses f) as fuel))
     | _, _, _ => (st, "bad-op")
+  | "wf" :: toks =>
+    match parseFn toks with
+    | some f => (st, b2s (wellFormed f))
+    | none => (st, "bad-op")
+  | "wfwhy" :: toks =>
+    match parseFn toks with
+    | some f =>
+      let g := deadBlockElim f
+      let c := computeCert g
+      let bad := (g.validBlocks.filter (fun B => !decide (BlockOK c g B))).map (·.id)
+      (st, s!"ids={decide (UniqueIds g)} uniq={decide g.allDefs.Nodup} entry={decide (c.avail g.entry = [])} badblocks={showVals bad}")
+    | none => (st, "bad-op")
+  | "wfstages" :: toks =>
+    -- the certificate of the function after dead-block elimination also certifies the later stages
+    match parseFn toks with
+    | some f =>
+      let g := deadBlockElim f
+      let c := computeCert g
+      let g2 := redundantPhiElim g
+      let g3 := nopElim g2
+      (st, s!"{b2s (decide (WF c g))}{b2s (decide (WF c g2))}{b2s (decide (WF c g3))}")
+    | none => (st, "bad-op")
   | "rpo" :: toks =>
     match parseFn toks with
     | some f => (st, showVals (rpo (deadBlockElim f)))
